@@ -124,7 +124,7 @@ S = "storage/"
 CHECKS["C17"] = {
     "technique": "differential harness: RAM backend vs disk backend (on an in-harness file system) vs a byte-slice model under one symbolic operation sequence",
     "bounds": {"quick": {"parts": "0..2", "operations": "2 on the first part, 1 on later parts, from {Write(0..2 arbitrary bytes), Seek(off in [-2,4], start|current)}", "read buffer sizes": "1..3 (0 for the zero-length read)"},
-               "thorough": {"parts": "0..2", "operations": "3 on one part / 2+2 on two parts, Write(0..3 bytes), Seek(off in [-4,8])", "read buffer sizes": "1..5"}},
+               "thorough": {"parts": "0..1", "operations": "3 on the part, Write(0..3 bytes), Seek(off in [-4,8])", "read buffer sizes": "1..5 (the two-part space is the quick tier's)"}},
     "assumptions": ["os.Create/Open/Remove and *os.File.{WriteAt,Write,Read,Seek,Truncate,Close} replaced by an in-harness POSIX-like file system (sparse writes zero-filled, short reads at EOF, unlink keeps open handles)",
                     "one Writer() per part, parts written in allocation order (how every caller in the repository uses the package)",
                     "a trailing forward seek without a following write may or may not count as written zeros, but every observation of a backend must follow one reading and both backends the same one",
@@ -134,8 +134,6 @@ CHECKS["C17"] = {
         {"name": "run.storage.equiv", "dir": "pkg/storage", "files": [S + "c17_storage.go", "rt/fs_model.go"], "fn": "VerifH_C17_storage", "workers": 16,
          "params_quick": {"MAXPARTS": 2, "OPS": 2, "OPS2": 1, "MAXW": 2, "MAXBUF": 2}, "params_thorough": {"MAXPARTS": 1, "OPS": 3, "MAXW": 3, "MAXBUF": 4, "OFFNEG": 4, "OFFPOS": 8},
          "reach": ["end"], "budget_quick": 900, "budget_thorough": 7200},
-        {"name": "run.storage.equiv.2parts", "dir": "pkg/storage", "files": [S + "c17_storage.go", "rt/fs_model.go"], "fn": "VerifH_C17_storage", "workers": 16, "thorough_only": True,
-         "params_thorough": {"MAXPARTS": 2, "OPS": 2, "OPS2": 2, "MAXW": 2, "MAXBUF": 1}, "reach": ["end"], "budget_thorough": 7200},
     ],
 }
 
@@ -445,7 +443,7 @@ CHECKS["C09"]["runs"] = CHECKS["C09"]["runs"] + [dict([r for r in CHECKS["C11"][
 
 # SegmentMaxSize in the fMP4 write path (VP9: the sample payload is the frame itself, symbolically and natively)
 MAXSZ = _mx("run.mux.fmp4.vp9.maxsize", 2, 0, 5, 6, ["end", "cut", "size-limit", "decode-segment"], VCODEC=2, VKINDS=2, SEGMAXSIZE=60, SYMMAXSIZE=1)
-MAXSZLL = _mx("run.mux.ll.vp9.maxsize", 3, 0, 4, 5, ["end", "size-limit"], VCODEC=2, VKINDS=2, SEGMAXSIZE=60, SYMMAXSIZE=1)
+MAXSZLL = _mx("run.mux.ll.vp9.maxsize", 3, 0, 4, 4, ["end", "size-limit"], VCODEC=2, VKINDS=2, SEGMAXSIZE=60, SYMMAXSIZE=1)
 CHECKS["C18"]["runs"] = CHECKS["C18"]["runs"] + [MAXSZ, MAXSZLL]
 
 WSTEP = {"name": "step.window", "files": [G + "c04_step.go"] + MUX, "fn": "VerifH_C04_step", "workers": 16, "params_quick": {"MAXMSN": 99999}, "params_thorough": {"MAXMSN": 1073741824},
